@@ -94,6 +94,26 @@ writev(int fd, const struct iovec *iov, int cnt)
 	return (ssize_t) syscall(SYS_writev, fd, v, m);
 }
 
+/* ... and for the other calls that move file data and may stop early */
+#include <sys/sendfile.h>
+ssize_t
+sendfile(int out, int in, off_t *off, size_t n)
+{
+	return (ssize_t) syscall(SYS_sendfile, out, in, off, maybe_short(out, n));
+}
+
+ssize_t
+copy_file_range(int in, off64_t *offin, int out, off64_t *offout, size_t n, unsigned flags)
+{
+	return (ssize_t) syscall(SYS_copy_file_range, in, offin, out, offout, maybe_short(out, n), flags);
+}
+
+ssize_t
+pwrite(int fd, const void *b, size_t n, off_t o)
+{
+	return (ssize_t) syscall(SYS_pwrite64, fd, b, maybe_short(fd, n), o);
+}
+
 /* readdir in a chosen order */
 struct dcache {
 	DIR *dir;
